@@ -50,8 +50,8 @@ IFACES = [["I1", []]]
 
 ACTIONS = ["none", "return", "break", "continue", "throwE1", "throwE2", "throwE3", "throwE4", "panic", "callthrow"]
 LAYOUTS = ["nocatch", "E1", "E2E1", "E1E2", "I1Exc", "E4orE1"]
-CATCH_ACTIONS = ["none", "rethrow", "thrownew", "return", "break"]
-FINALLY = ["absent", "plain", "return", "throw"]
+CATCH_ACTIONS = ["none", "rethrow", "thrownew", "return", "break", "continue"]
+FINALLY = ["absent", "plain", "return", "throw", "panic", "innerloop"]
 
 
 def action_stmts(a):
@@ -84,6 +84,8 @@ def catch_body(label, ca, user_class):
         b.append(["return", lit(2)])
     elif ca == "break":
         b.append(["break", 1])
+    elif ca == "continue":
+        b.append(["continue", 1])
     return b
 
 
@@ -106,6 +108,13 @@ def path_program(action, layout, ca, fin):
             fb.append(["return", lit(3)])
         elif fin == "throw":
             fb.append(["throw", ["new", "E4", lit("fromfinally")]])
+        elif fin == "panic":
+            fb.append(["expr", ["assign", "z", ["panic"]]])          # a Go panic inside finally (of the innermost try)
+        elif fin == "innerloop":
+            # break / continue inside finally, aimed at a loop that is itself inside the finally block
+            fb.append(["for", [["assign", "j", lit(0)]], ["bin", "Lt", var("j"), lit(3)], [["postinc", "j"]],
+                       [["if", ["bin", "Eq", var("j"), lit(0)], [["continue", 1]], [], []], tag("j", var("j")),
+                        ["if", ["bin", "Eq", var("j"), lit(1)], [["break", 1]], [], []]]])
     body = [echo("t")] + action_stmts(action) + [echo("u")]
     thrower = {"name": "thrower", "params": [["k", None]], "body": [echo("T"), ["throw", ["new", "E2", lit("deep")]], echo("never")]}
     run = {"name": "run", "params": [], "body": [
@@ -171,6 +180,10 @@ def identity_programs():
     out.append(dict(base, main=[
         ["try", [["throw", ["new", "E4", lit("t")]]], [["Throwable", "e", [echo("throwable:"), ["echo", ["class", var("e")]]]]], None],
         ["try", [["throw", ["new", "E2", lit("t")]]], [["E1", None, [echo(";novar")]]], [echo(";f")]]]))
+    # a Go panic inside the finally of an outermost try: an uncaught internal error, not a crash
+    out.append(dict(base, main=[echo("a;"), ["try", [echo("t;")], [], [echo("f;"), ["expr", ["assign", "z", ["panic"]]], echo("never")]], echo("never")]))
+    out.append(dict(base, main=[["try", [["try", [["throw", ["new", "E1", lit("p")]]], [], [echo("f;"), ["expr", ["assign", "z", ["panic"]]]]]],
+                                 [["E1", "e", [echo("wrong;")]], ["Exception", None, [echo("internal;")]]], [echo("F")]]]))
     # uncaught: finally runs, output so far is kept, the script fails
     out.append(dict(base, main=[echo("before;"), ["try", [["throw", ["new", "E1", lit("boom")]]], [["E4", "e", [echo("wrong")]]], [echo("fin;")]], echo("never")]))
     return out
@@ -356,6 +369,8 @@ class Gen5(G.Gen):
                 fin.append(["return", None if sc.get("void") else self.int_expr(sc, 1)])
             elif c < 0.14:
                 fin.append(["throw", self.new_exc()])
+            elif c < 0.18:
+                fin.append(["if", self.bool_expr(sc), [["expr", ["assign", "z", ["panic"]]]], [], []])
         self.trydepth -= 1
         return ["try", [echo("(t)")] + body, catches, fin]
 
@@ -412,6 +427,31 @@ def cli_cases():
                     ("ob_start();\necho \"a;\";\nob_start();\necho \"b;\";\n$x = ob_get_clean();\necho \"c;\" . $x;", "a;c;b;"),
                     ("ob_start();\necho \"a;\";\nob_start();\necho \"b;\";\nob_start();\necho \"c;\";", "a;b;c;")):
         out.append((3, 0, "<?php\n" + body + "\n", e))
+    # more than one file ("#--file:NAME" starts another file next to the script); the script that was named does not exist
+    badinc = "\n#--file:inc_bad.php\n<?php\nfunction ( {\n"
+    out.append((1, 0, "<?php\necho \"out;\";\ninclude \"inc_bad.php\";\necho \"never\";" + badinc, "out;"))
+    out.append((3, 0, "<?php\necho \"out;\";\ntry { include \"inc_bad.php\"; } catch (Throwable $e) { echo \"caught;\"; }\n"
+                      "echo \"after;\";" + badinc, "out;caught;after;"))
+    out.append((1, 0, "<?php\necho \"out;\";\nrequire \"missing_file.php\";\necho \"never\";\n", "out;"))
+    out.append((1, 0, "<?php\necho \"out;\";\ninclude \"inc_throw.php\";\necho \"never\";\n#--file:inc_throw.php\n<?php\necho \"inc;\";\n"
+                      "throw new Exception(\"from the included file\");\n", "out;inc;"))
+    out.append((0, 0, None, None))                                      # no such script: nothing runs (stdout is the usage text)
+    # a shutdown callback runs after the end and may itself fail
+    out.append((1, 0, "<?php\nregister_shutdown_function(function() { echo \"shut;\"; throw new Exception(\"in shutdown\"); });\n"
+                      "echo \"out;\";\n", "out;shut;"))
+    out.append((3, 0, "<?php\nregister_shutdown_function(function() { echo \"shut;\"; });\necho \"out;\";\n", "out;shut;"))
+    out.append((1, 0, "<?php\nregister_shutdown_function(function() { echo \"shut;\"; });\necho \"out;\";\nthrow new Exception(\"x\");\n", "out;shut;"))
+    out.append((2, 3, "<?php\nregister_shutdown_function(function() { echo \"shut;\"; });\necho \"out;\";\nexit(3);\n", "out;shut;"))
+    out.append((2, 7, "<?php\nregister_shutdown_function(function() { echo \"s1;\"; exit(7); });\n"
+                      "register_shutdown_function(function() { echo \"s2;\"; });\necho \"out;\";\n", "out;s1;"))
+    out.append((1, 0, "<?php\nob_start();\nregister_shutdown_function(function() { echo \"s1;\"; throw new Exception(\"in s1\"); });\n"
+                      "echo \"out;\";\nexit(2);\n", "out;s1;"))
+    # catch clauses naming an undeclared class / a fully qualified built-in
+    out.append((3, 0, "<?php\necho \"out;\";\ntry { throw new Exception(\"x\"); } catch (Undeclared $e) { echo \"wrong;\"; } "
+                      "catch (\\Exception $e) { echo \"ns;\"; }\ntry { throw new Exception(\"y\"); } catch (\\Throwable $e) { echo \"thr;\"; }\n",
+                "out;ns;thr;"))
+    out.append((1, 0, "<?php\necho \"out;\";\ntry { throw new Exception(\"x\"); } catch (Undeclared $e) { echo \"wrong;\"; } finally { echo \"f;\"; }\n",
+                "out;f;"))
     return out
 
 
@@ -420,7 +460,12 @@ def run_cli(binary, cases, ck):
     d = tempfile.mkdtemp(prefix="c05cli", dir=ck.bdir)
     for i, (kind, arg, src, exp) in enumerate(cases):
         path = os.path.join(d, "s%d.php" % i)
-        open(path, "w").write(src)
+        if src is not None:
+            parts = src.split("\n#--file:")
+            open(path, "w").write(parts[0] + "\n")
+            for extra in parts[1:]:
+                name, _, body = extra.partition("\n")
+                open(os.path.join(d, name), "w").write(body)
         try:
             p = subprocess.run([binary, path], stdout=subprocess.PIPE, stderr=subprocess.PIPE, text=True, timeout=30, cwd=d,
                                stdin=subprocess.DEVNULL)
@@ -439,10 +484,12 @@ def main(ck):
         "a Go-level panic is produced by verif_panic(), a built-in registered by harness/cmd/c05 whose Go body writes to a nil map "
         "(every script-reachable panic found so far has been repaired); the model treats EPanic as an internal error thrown at "
         "that point (what TryStatement.guarded makes of it)",
-        "object identity: a counter in the global state; getMessage/get_class are observed only on user exception objects",
+        "object identity: a counter in the global state; getMessage/get_class are observed only on user exception objects; "
+        "properties, a user method, instanceof and == are observed on the caught object (heap in the global state)",
         "CLI: os.Exit, process exit status truncation to 8 bits and stderr are the operating system's; modelled as a 4-state table",
         "harness/cmd/c05 (in-process engine, vrun.RunStringWith), checks/C02.py printers + checks/C05.py generators",
-        "not modelled: exception properties/getCode/getTrace, set_exception_handler, shutdown functions, nested ob_start (crashes today: strings.Builder copied by value)",
+        "not modelled (CLI table only): getCode/getTrace/getPrevious, set_exception_handler; shutdown callbacks and included files appear "
+        "only as CLI cases (exit status, diagnostic, output kept), not in the Coq interpreters",
     ]
     ck.prove(deps=["C02", "C08"])
     binary, out = ck.go_build("c05")
@@ -533,7 +580,7 @@ def main(ck):
             cli_res = run_cli(obin, cli, ck)
             cterms = []
             for (kind, arg, src, exp), r in zip(cli, cli_res):
-                kept = r["stdout"] == exp
+                kept = exp is None or r["stdout"] == exp
                 cterms.append("((%d%%nat, (%d)%%Z, (%d)%%Z, %s, %s) : cli_case)" % (
                     kind, arg, r["code"], "true" if r["stderr_nonempty"] else "false", "true" if kept else "false"))
             cbad = ck.eval_cases("cli", HEADER, cterms, "check_cli", shard=200)
@@ -565,11 +612,11 @@ def main(ck):
     ck.cov["cli_exit_codes_seen"] = sorted(set(r["code"] for r in cli_res))
     sizes = sorted(G.size_of(c[0]) for c in cases)
     ck.cov["program_size_median"] = sizes[len(sizes) // 2] if sizes else 0
-    ck.samples = ([srcs[len(srcs) // 2], srcs[-1]] if srcs else []) + ([cli[0][2]] if cli else [])
+    ck.samples = ([srcs[len(srcs) // 2], srcs[-1]] if srcs else []) + ([cli[0][2]] if cli and cli[0][2] else [])
     ck.finish(level="proof", evaluations=len(cases) + len(cli), distinct_nontrivial=nontriv + len(cli),
               rule="programs: every combination of try-block exit (none, return, break, continue, throw of 4 classes, Go panic, throw from a "
                    "callee) x catch layout (none, one, specific-then-general, general-then-specific, interface-then-Exception, union A|B) x catch "
-                   "action (none, rethrow, throw new, return, break) x finally (absent, plain, return, throw), each inside a loop inside "
+                   "action (none, rethrow, throw new, return, break, continue) x finally (absent, plain, return, throw, Go panic, loop with break/continue inside), each inside a loop inside "
                    "a function inside an outer try (nesting 2); identity / rethrow / unwinding probes; break N / continue N (N = 2, 3) leaving 1-2 nested trys in 2-3 nested loops/switch; sequences of throws of different classes through ONE try statement (in a loop, in a function called repeatedly; 5 clause lists x 15 sequences); hierarchy probes (interface declared by the class, its parent or grandparent, interface-extends chains, 9 clause orders x 7 thrown classes); seeded random typed programs with "
                    "1-5 exception classes and 0-2 interfaces, try nesting <= 3; CLI: real subprocesses over parse errors, uncaught "
                    "throwables, exit(n), normal end, with and without open output buffers; non-trivial = distinct program containing a try / a CLI case",
